@@ -1185,6 +1185,13 @@ impl SendSignal for VirtualSystem {
                 Pid(raw_pid) if raw_pid >= 0 => {
                     let mut state = self.state.borrow_mut();
                     match state.processes.get_mut(&target) {
+                        // A terminated process that has already been waited for
+                        // no longer exists as far as `kill` is concerned.
+                        Some(process)
+                            if !process.state().is_alive() && !process.state_has_changed() =>
+                        {
+                            Err(Errno::ESRCH)
+                        }
                         Some(process) => {
                             if let Some(signal) = signal {
                                 let result = process.raise_signal(signal);
